@@ -12,7 +12,7 @@ def registry():
     from . import props_sym
     reg = {'C01': props_sym.run_c01, 'C02': props_sym.run_c02, 'C03': props_sym.run_c03,
            'C06': props_sym.run_c06, 'C13': props_sym.run_c13}
-    for modname in ('props_decide', 'props_seq', 'props_render', 'props_routes', 'props_purity', 'props_helpers'):
+    for modname in ('props_decide', 'props_args', 'props_seq', 'props_render', 'props_routes', 'props_purity', 'props_helpers'):
         try:
             mod = __import__('harness.' + modname, fromlist=['REGISTRY'])
         except ModuleNotFoundError as e:
